@@ -31,6 +31,9 @@ def cases(tier, salts):
             base.append(("scaled_infeasible", dict(cfgs.base_cfg(prob, salt, maxfun=30, scaling=True, **BOX), x0=[1.5, -1.0])))
             base.append(("onesided", dict(cfgs.base_cfg(prob, salt, maxfun=30, lo=[-1.0, None], hi=None), x0=[-2.5, 2.5])))
             base.append(("regression", cfgs.base_cfg(prob, salt, maxfun=50, npt=5)))
+            # the largest point count the deterministic coordinate initialisation supports: (n+1)(n+2)/2
+            base.append(("regression_max", cfgs.base_cfg(prob, salt, maxfun=50, npt=6)))
+            base.append(("regression_max_bounded", cfgs.base_cfg(prob, salt, maxfun=40, npt=6, **BOX)))
             base.append(("soft", cfgs.base_cfg(prob, salt, maxfun=60, rhobeg=0.3, rhoend=0.02,
                                                user_params={"restarts.use_restarts": True})))
             base.append(("hard", cfgs.base_cfg(prob, salt, maxfun=60, rhobeg=0.3, rhoend=0.02,
@@ -40,6 +43,8 @@ def cases(tier, salts):
             if salt == 0:
                 base.append(("regularised", cfgs.base_cfg(prob, salt, maxfun=12, reg={"r": "l1", "lam": 0.05})))
         base.append(("n3", cfgs.base_cfg("rosen3", salt, maxfun=60)))
+        base.append(("n3_regression_max", cfgs.base_cfg("rosen3", salt, maxfun=60, npt=10)))
+        base.append(("n1_regression_max", cfgs.base_cfg("one", salt, maxfun=30, npt=3)))
         base.append(("inverse", cfgs.base_cfg("inv", salt, maxfun=60)))
         specs = C09.set_bank(2, salt)
         subsets = [c for L in (1, 2, 3) for c in itertools.combinations(range(len(specs)), L)]
